@@ -18,6 +18,34 @@ let nser = ref 0
 let pr_it p (s, i) = Printf.printf "%d.%d" (int_of_n s) (int_of_n i)
 let pr_chain p l = List.iter (fun (x, bt) -> print_string " "; pr_it p x; print_string ":"; pr_it p bt) l
 let step o = let (w', r) = world_step !pagesize !envmax !w o in w := w'; r
+(* the same operation run alone on the micro-step machine (Mpool/Micro.v): its lock events, and its final pool,
+   which must be the op-atomic result *)
+let micro_solo p t o =
+  let m0 = { m_pool = p; m_live = (match o with OFree x -> [x] | OAlloc -> []); m_rlock = None; m_plock = None;
+             m_thr = [(t, { t_pc = Idle; t_prog = [o] })] } in
+  let buf = Buffer.create 8 in
+  let rec go m n =
+    let th = get_thr t m.m_thr in
+    if th.t_pc = Idle && th.t_prog = [] then Some m
+    else if n = 0 then None
+    else match mstep true m t with
+      | None -> None
+      | Some m' ->
+        (match m.m_rlock, m'.m_rlock with None, Some _ -> Buffer.add_string buf "Lr" | Some _, None -> Buffer.add_string buf "Ur" | _ -> ());
+        (match m.m_plock, m'.m_plock with None, Some _ -> Buffer.add_string buf "Lp" | Some _, None -> Buffer.add_string buf "Up" | _ -> ());
+        go m' (n - 1) in
+  match go m0 40 with
+  | Some m -> ((if Buffer.length buf = 0 then "-" else Buffer.contents buf), Some m.m_pool)
+  | None -> ("MICRO-STUCK", None)
+let micro_check pid t o =
+  (* call BEFORE the atomic step; returns a closure to call after it *)
+  match get_pool pid !w.w_pools with
+  | None -> (fun () -> "nopool")
+  | Some p ->
+    let (ev, mp) = micro_solo p t o in
+    (fun () -> match get_pool pid !w.w_pools, mp with
+       | Some p', Some q when p' = q -> ev
+       | _ -> "MICRO<>ATOMIC")
 let () =
   try while true do
     let line = input_line stdin in
@@ -34,11 +62,12 @@ let () =
         | Some p -> let c = get_cache (n_of_string tid) p.p_caches in
           if c.c_list <> [] then "cache" else if c.c_block <> None then "block" else if p.p_reuse <> [] then "reuse" else "newslab"
         | None -> "nopool" in
+      let mc = micro_check (n_of_string pid) (n_of_string tid) OAlloc in
       (match step (WAlloc (n_of_string pid, n_of_string tid)) with
        | RItem x ->
          Hashtbl.replace serials !nser x; incr nser;
          (match get_pool (n_of_string pid) !w.w_pools with
-          | Some p -> Printf.printf "A %d %d @%s\n" (int_of_n (fst x)) (int_of_n (offset_of p x)) tag
+          | Some p -> Printf.printf "A %d %d @%s %s\n" (int_of_n (fst x)) (int_of_n (offset_of p x)) tag (mc ())
           | None -> print_endline "A stuck")
        | _ -> Hashtbl.replace serials !nser (N0, N0); incr nser; print_endline "A stuck")
     | ["F"; pid; tid; k] ->
@@ -49,7 +78,8 @@ let () =
              let cnt = int_of_n c.c_count + 1 and ipa = int_of_n p.p_ipa in
              if cnt >= 2 * ipa then "global" else if cnt = ipa + 1 then "chop" else "plain"
            | None -> "nopool" in
-         (match step (WFree (n_of_string pid, n_of_string tid, x)) with RUnit -> print_endline ("F ok @" ^ tag) | _ -> print_endline "F stuck")
+         let mc = micro_check (n_of_string pid) (n_of_string tid) (OFree x) in
+         (match step (WFree (n_of_string pid, n_of_string tid, x)) with RUnit -> print_endline ("F ok @" ^ tag ^ " " ^ mc ()) | _ -> print_endline "F stuck")
        | None -> print_endline "F unknown-serial")
     | ["S"; pid; nt] ->
       (match get_pool (n_of_string pid) !w.w_pools with
